@@ -49,16 +49,45 @@ def generic_form(ctx, config, U):
             if dict(found[0][0]).get(atom) is True and dict(other[0]).get(atom) is False and len(other[0]) == 2 \
                     and other[1] == "val" and T.canon(other[2]) == ("none",):
                 t, wrapped = fm, True
-    ok = (t is not None and t[0] == "app" and t[1] == ITER + "find_map" and len(t[3]) == 2
-          and t[3][0] == ("app", SLICE_ITER, None, (("field", self_, "mappings"),)) and t[3][1][0] in ("closure", "lam"))
-    ctx.ob("convert-find-map", config, ok, "other units: %s — expected the first `Some` of a row function over self.mappings in table order, None if there is none" % desc, where)
-    if not ok:
-        return
+    ITER_SRC = ("app", SLICE_ITER, None, (("field", self_, "mappings"),))
     row = T.P(100, "row")
-    try:
-        co = ev.summarize_closure(t[3][1], [row])
-    except T.Unsupported as x:
-        ctx.fail("convert-row-closure", config, "unsupported construct in the row closure: " + x.what, x.sp or where)
+    co = None
+    if t is not None and t[0] == "app" and t[1] == ITER + "find_map" and len(t[3]) == 2 and t[3][0] == ITER_SRC and t[3][1][0] in ("closure", "lam"):
+        try:
+            co = ev.summarize_closure(t[3][1], [row])
+        except T.Unsupported as x:
+            ctx.fail("convert-row-closure", config, "unsupported construct in the row closure: " + x.what, x.sp or where)
+            return
+    elif len(sel_diff) == 2:
+        # `iter().find(pred).map(f)`: split on whether find found a row
+        for (g1, k1, t1) in sel_diff:
+            fa = [a for a, pol in g1 if a[0] == "isvar" and a[2] == "Some" and pol and a[1][0] == "app" and a[1][1] == ITER + "find"]
+            if len(fa) != 1 or k1 != "val" or T.canon(t1)[0] != "some":
+                continue
+            find = fa[0][1]
+            other = [x for x in sel_diff if x[0] is not g1][0]
+            if not (len(find[3]) == 2 and find[3][0] == ITER_SRC and find[3][1][0] in ("closure", "lam") and dict(other[0]).get(fa[0]) is False
+                    and other[1] == "val" and T.canon(other[2]) == ("none",)):
+                continue
+            try:
+                po = ev.summarize_closure(find[3][1], [row])
+            except T.Unsupported as x:
+                ctx.fail("convert-row-closure", config, "unsupported construct in the row predicate: " + x.what, x.sp or where)
+                return
+            val = T.subst(T.canon(t1), {T.canon(("unwrap", find)): row})
+            co = []
+            for (g2, k2, b2) in po:
+                if k2 != "val":
+                    co.append((g2, k2, b2))
+                    continue
+                gt, gf = T.gadd(g2, b2, True), T.gadd(g2, b2, False)
+                if gt is not None:
+                    co.append((gt, "val", val))
+                if gf is not None:
+                    co.append((gf, "val", ("none",)))
+    ctx.ob("convert-find-map", config, co is not None,
+           "other units: %s — expected the first `Some` of a row function over self.mappings in table order (find_map, a search loop, or find + map), None if there is none" % desc, where)
+    if co is None:
         return
     if wrapped:
         # the row function of the search form returns Some(<value returned by convert>)
@@ -101,7 +130,7 @@ def temperature_table(ctx, config, w):
     U = w.U
     amt = ws.amount_type(config)
     path = "quantities::temperature::TEMPERATURE_CONVERTER"
-    b = U.body.get(path)
+    b = U.get_body(path)
     if b is None:
         raise ModelError("anchor", "constant TEMPERATURE_CONVERTER not found")
     try:
